@@ -17,8 +17,15 @@
                        it does NOT re-check the lock — only the version
   * `poll w`           both, with nothing in between
   * `ack`              DELETE WHERE id (unconditional)
-  * `reschedule`       UPDATE SET deliver_at, locked_until = NULL WHERE id (unconditional, no version bump)
-  * `extend`           UPDATE SET locked_until WHERE id (unconditional, no version bump)
+  * `reschedule w id`  the message worker `w` got from poll_one carries the claim token `_claim_version` (= the row
+                       version its claim produced): UPDATE SET deliver_at, locked_until = NULL
+                       WHERE id = :id AND version = :claim   (no version bump)
+  * `extend w id`      UPDATE SET locked_until WHERE id = :id AND version = :claim AND locked_until IS NOT NULL AND
+                       not lapsed; returns rowcount == 1.  In the abstract state a held lock stays held, so only the
+                       return value is modelled.
+  * `rescheduleRaw id` / `extendRaw id`   the same calls with a hand-made Message that has NO claim token: the guard
+                       is omitted and the statements are the unconditional ones the code had before the F14 repair
+                       (`WHERE id = :id`).  Messages handed out by poll_one always carry the token.
   * `moveToDlq`        DELETE … RETURNING + INSERT INTO dlq, ONE commit
   * `sweep`            check_and_move_expired: SELECT WHERE attempts >= max_attempts (the ROW's column),
                        then move_to_dlq per row, one commit each
@@ -34,6 +41,8 @@
   hence the `front` flag.  Order = front rows first, then stamp, then row id.  No theorem depends on
   the order — only on `pick_mem` (the selected row is one of the eligible rows).
 
+  `toks` is real in-memory state: the claim token on the Message object worker `w` holds for row `id`
+  (replaced by `w`'s next claim of that row, gone after a crash).
   Ghost state: `acked` (payload tags removed by `ack`), `leases` (worker `w` was handed row `id` by a
   successful claim and has not released it; `live = false` once its lock lapsed), worker ids.
   The payload is abstracted to a unique `tag` (the harness puts the tag into the message).
@@ -79,7 +88,15 @@ structure Sel where
 structure Lease where
   w : Nat
   id : Nat
+  ver : Nat            -- the row version the claim produced (= the worker's claim token)
   live : Bool
+  deriving DecidableEq, Repr
+
+/-- `message._claim_version` of the Message worker `w` holds for row `id` -/
+structure Tok where
+  w : Nat
+  id : Nat
+  ver : Nat
   deriving DecidableEq, Repr
 
 structure State where
@@ -93,6 +110,7 @@ structure State where
   clock : Nat := 0
   sels : List Sel := []
   leases : List Lease := []
+  toks : List Tok := []
   deriving Repr
 
 def init (maxAttempts : Nat) : State := { maxAttempts }
@@ -110,6 +128,8 @@ inductive Act where
   | ack (w id : Nat)
   | reschedule (w id : Nat) (delay : Bool)
   | extend (w id : Nat)
+  | rescheduleRaw (id : Nat) (delay : Bool)
+  | extendRaw (id : Nat)
   | expire (id : Nat)
   | mature (id : Nat)
   | moveToDlq (id : Nat)
@@ -131,7 +151,8 @@ inductive Prim where
   | claimSel (w : Nat) (dlqCorrupt : Bool)
   | ackRow (w id : Nat)
   | resched (w id : Nat) (delay : Bool)
-  | extend (w id : Nat)
+  | reschedRaw (id : Nat) (delay : Bool)
+  | extendRaw (id : Nat)
   | expire (id : Nat)
   | mature (id : Nat)
   | moveToDlq (id : Nat)
@@ -186,6 +207,10 @@ def moveToDlq (s : State) (i : Nat) : State :=
 
 def dropLeases (w i : Nat) (ls : List Lease) : List Lease := ls.filter (fun l => !(l.w == w && l.id == i))
 
+def dropToks (w i : Nat) (ts : List Tok) : List Tok := ts.filter (fun t => !(t.w == w && t.id == i))
+
+def tokOf (s : State) (w i : Nat) : Option Nat := (s.toks.find? (fun t => t.w == w && t.id == i)).map (·.ver)
+
 def claimRows (rows : List Row) (i v : Nat) : List Row :=
   rows.map (fun r => if r.id == i && r.version == v
     then { r with lock := .held, attempts := r.attempts + 1, version := r.version + 1 } else r)
@@ -200,7 +225,9 @@ def claimSel (s : State) (w : Nat) (dlqCorrupt : Bool) : State :=
     | some r =>
       let s1 := { s0 with rows := claimRows s0.rows x.id x.version }
       -- a new claim by the same worker supersedes its older (lapsed) lease on that row
-      if r.bad == 0 then { s1 with leases := ⟨w, r.id, true⟩ :: dropLeases w r.id s1.leases }
+      if r.bad == 0 then
+        { s1 with leases := ⟨w, r.id, r.version + 1, true⟩ :: dropLeases w r.id s1.leases
+                  toks := ⟨w, r.id, r.version + 1⟩ :: dropToks w r.id s1.toks }
       else if r.bad == 1 && dlqCorrupt then moveToDlq s1 r.id
       else s1
 
@@ -209,17 +236,32 @@ def ackRow (s : State) (w i : Nat) : State :=
            acked := s.acked ++ (s.rows.filter (fun r => r.id == i)).map (·.tag)
            leases := dropLeases w i s.leases }
 
+/-- `reschedule(message, delay)` with the message `w` polled: guarded by its claim token.
+    Without such a message (`w` never polled the row) the call cannot be made: no-op. -/
 def resched (s : State) (w i : Nat) (delay : Bool) : State :=
+  match tokOf s w i with
+  | none => s
+  | some v =>
+    { s with rows := s.rows.map (fun r => if r.id == i && r.version == v
+               then { r with deliverable := !delay, front := false, stamp := s.clock, lock := .free } else r)
+             clock := s.clock + 1
+             leases := dropLeases w i s.leases }
+
+/-- `reschedule` with a hand-made Message (no claim token): unguarded -/
+def reschedRaw (s : State) (i : Nat) (delay : Bool) : State :=
   { s with rows := s.rows.map (fun r => if r.id == i
              then { r with deliverable := !delay, front := false, stamp := s.clock, lock := .free } else r)
-           clock := s.clock + 1
-           leases := dropLeases w i s.leases }
+           clock := s.clock + 1 }
 
-def extend (s : State) (w i : Nat) : State :=
-  { s with rows := s.rows.map (fun r => if r.id == i then { r with lock := .held } else r)
-           leases := if s.rows.any (fun r => r.id == i)
-                     then s.leases.map (fun l => if l.w == w && l.id == i then { l with live := true } else l)
-                     else s.leases }
+/-- `extend_lock` with a hand-made Message (no claim token): unguarded -/
+def extendRaw (s : State) (i : Nat) : State :=
+  { s with rows := s.rows.map (fun r => if r.id == i then { r with lock := .held } else r) }
+
+/-- does the guarded `extend_lock` of worker `w` hit a row (`rowcount == 1`)? -/
+def extendHits (s : State) (w i : Nat) : Bool :=
+  match tokOf s w i with
+  | none => false
+  | some v => s.rows.any (fun r => r.id == i && r.version == v && r.lock == .held)
 
 def expire (s : State) (i : Nat) : State :=
   { s with rows := s.rows.map (fun r => if r.id == i && r.lock == .held then { r with lock := .lapsed } else r)
@@ -238,7 +280,7 @@ def replay (s : State) (d : Nat) : State :=
                                   deliverable := true, front := true, stamp := s.clock }]
              nextId := s.nextId + 1, clock := s.clock + 1 }
 
-def kill (s : State) : State := { s with sels := [], leases := [] }
+def kill (s : State) : State := { s with sels := [], leases := [], toks := [] }
 
 def applyPrim (s : State) : Prim → State
   | .pushRow m b d => pushRow s m b d
@@ -247,7 +289,8 @@ def applyPrim (s : State) : Prim → State
   | .claimSel w c => claimSel s w c
   | .ackRow w i => ackRow s w i
   | .resched w i d => resched s w i d
-  | .extend w i => extend s w i
+  | .reschedRaw i d => reschedRaw s i d
+  | .extendRaw i => extendRaw s i
   | .expire i => expire s i
   | .mature i => mature s i
   | .moveToDlq i => moveToDlq s i
@@ -256,9 +299,10 @@ def applyPrim (s : State) : Prim → State
 
 def applyPrims (s : State) (ps : List Prim) : State := ps.foldl applyPrim s
 
-/-- ids the sweep's SELECT returns (`WHERE attempts >= max_attempts`, table order) -/
+/-- ids the sweep's SELECT returns
+    (`WHERE attempts >= max_attempts OR attempts >= :queue_max_attempts`, table order) -/
 def sweepIds (s : State) : List Nat :=
-  (s.rows.filter (fun r => decide (r.attempts ≥ r.maxAtt))).map (·.id)
+  (s.rows.filter (fun r => decide (r.attempts ≥ r.maxAtt) || decide (r.attempts ≥ s.maxAttempts))).map (·.id)
 
 /-- The committed steps of an action; `budget = some k` keeps only what the first `k` commits make durable. -/
 def primsOf (s : State) (a : Act) (budget : Option Nat) : List Prim :=
@@ -280,7 +324,9 @@ def primsOf (s : State) (a : Act) (budget : Option Nat) : List Prim :=
     | _ => [.setSel w, .claimSel w true]
   | .ack w i => one (.ackRow w i)
   | .reschedule w i d => one (.resched w i d)
-  | .extend w i => one (.extend w i)
+  | .extend _ _ => []                                  -- a held lock stays held: nothing changes in the abstract state
+  | .rescheduleRaw i d => one (.reschedRaw i d)
+  | .extendRaw i => one (.extendRaw i)
   | .expire i => [.expire i]
   | .mature i => [.mature i]
   | .moveToDlq i => one (.moveToDlq i)
@@ -326,11 +372,13 @@ def outOf (s : State) : Op → Out
   | .crash _ _ => .crashed
   | .act a =>
     match a with
-    | .push _ | .pushTxn _ _ | .inject _ | .ack _ _ | .reschedule _ _ _ | .expire _ | .mature _ | .moveToDlq _ => .ok
+    | .push _ | .pushTxn _ _ | .inject _ | .ack _ _ | .reschedule _ _ _ | .rescheduleRaw _ _ | .expire _ | .mature _
+    | .moveToDlq _ => .ok
     | .pollSelect _ => match candidate s with | none => .none | some r => .sel r.id r.version
     | .pollClaim w => claimOut s w
     | .poll w => match candidate s with | none => .none | some _ => claimOut (setSel s w) w
-    | .extend _ i => .bool (s.rows.any (fun r => r.id == i))
+    | .extend w i => .bool (extendHits s w i)
+    | .extendRaw i => .bool (s.rows.any (fun r => r.id == i))
     | .sweep => .count (sweepIds s).length
     | .replay d => .bool (s.dlq.any (fun x => x.did == d))
 
@@ -338,18 +386,13 @@ def outOf (s : State) : Op → Out
 
 def hasLive (s : State) (w i : Nat) : Bool := s.leases.any (fun l => l.w == w && l.id == i && l.live)
 
-/-- a reschedule / heartbeat is *disciplined* when the caller's lease on that row has not lapsed
-    (`ack` needs no such condition: it deletes the row, which cannot hand it to a second worker) -/
-def disciplinedAct (s : State) : Act → Bool
-  | .reschedule w i _ | .extend w i => hasLive s w i
-  | _ => true
+/-- the op uses a hand-made Message without claim token (outside the poll → release protocol) -/
+def isRawAct : Act → Bool
+  | .rescheduleRaw _ _ | .extendRaw _ => true
+  | _ => false
 
-def disciplined (s : State) : Op → Bool
-  | .act a | .crash a _ => disciplinedAct s a
-
-def disciplinedRun (s : State) : List Op → Bool
-  | [] => true
-  | op :: rest => disciplined s op && disciplinedRun (next s op) rest
+def isRaw : Op → Bool
+  | .act a | .crash a _ => isRawAct a
 
 def liveOn (s : State) (i : Nat) : List Lease := s.leases.filter (fun l => l.live && l.id == i)
 
@@ -364,7 +407,8 @@ def places (s : State) (t : Nat) : Nat :=
 
   request : `queue <maxAttempts> <op;op;…>`
   ops     : `push:d` `pusht:m:d` `inject:b` `sel:w` `claim:w` `poll:w` `ack:w:id` `resched:w:id:d`
-            `extend:w:id` `expire:id` `mature:id` `dlq:id` `sweep` `replay:did` `crash:k:<op>`
+            `extend:w:id` `rresched:id:d` `rextend:id` `expire:id` `mature:id` `dlq:id` `sweep` `replay:did`
+            `crash:k:<op>`
   answer  : per op `<out>#<rows>#<dlq>#<order of the deliverable rows>#<acked>` joined by `|`
 -/
 
@@ -379,6 +423,8 @@ def parseAct (toks : List String) : Option Act :=
   | ["ack", w, i] => do pure (.ack (← Parse.nat? w) (← Parse.nat? i))
   | ["resched", w, i, d] => do pure (.reschedule (← Parse.nat? w) (← Parse.nat? i) (← Parse.bool? d))
   | ["extend", w, i] => do pure (.extend (← Parse.nat? w) (← Parse.nat? i))
+  | ["rresched", i, d] => do pure (.rescheduleRaw (← Parse.nat? i) (← Parse.bool? d))
+  | ["rextend", i] => do pure (.extendRaw (← Parse.nat? i))
   | ["expire", i] => do pure (.expire (← Parse.nat? i))
   | ["mature", i] => do pure (.mature (← Parse.nat? i))
   | ["dlq", i] => do pure (.moveToDlq (← Parse.nat? i))
